@@ -6,7 +6,7 @@ use protobuf::EnumOrUnknown;
 
 use crate::engine::{fail, Budget, Property, Report, Tier, Verdict};
 use crate::ensure;
-use crate::genfam::{gen_custom, gen_real, GenOpts};
+use crate::genfam::{gen_custom, gen_real, gen_text, GenOpts};
 use crate::neutral::{to_lib, NType, NValue};
 use crate::pbdecode::{stream, DBucket, DFamily, DHistogram, DLabel, DMetric, DQuantile, DSummary};
 use crate::src::Src;
@@ -148,6 +148,15 @@ fn perturb(src: &mut Src, mf: &mut MetricFamily, rep: &mut Report) {
     }
 }
 
+/// A family name out of mixed-width fragments, repeated so that its byte length lands anywhere up to a few hundred bytes (or,
+/// rarely, far beyond): nothing in the wire format or in the encoder restricts names.
+fn wild_name(src: &mut Src) -> String {
+    let unit = src.text(crate::pools::TEXT_FRAGS, 3) + ["", "n", "é", "日", "😀"][src.below(5)];
+    let mut name = unit.repeat(1 + src.below(40));
+    name.push_str(&gen_text(src));
+    name
+}
+
 impl Property for C13 {
     fn id(&self) -> &'static str {
         "C13"
@@ -205,6 +214,10 @@ impl Property for C13 {
                 } else if src.chance(10) {
                     mf.set_name(String::new());
                     rep.class("empty-name");
+                } else if src.chance(50) {
+                    // the wire format carries any string as a name (a custom collector decides it)
+                    mf.set_name(wild_name(src));
+                    rep.class("name:arbitrary-unicode");
                 }
                 perturb(src, mf, rep);
             }
@@ -244,7 +257,7 @@ impl Property for C13 {
         if !must_fail && !lib.is_empty() && src.chance(50) {
             let mut poisoned = lib.clone();
             let mut bad = MetricFamily::default();
-            bad.set_name("refused_family_without_samples".into());
+            bad.set_name(if src.chance(128) { "refused_family_without_samples".into() } else { wild_name(src) + "r" });
             poisoned.push(bad);
             let mut sink = Vec::new();
             let r0 = ProtobufEncoder::new().encode(&poisoned, &mut sink);
